@@ -238,7 +238,7 @@ def run(ck, fx, cg, tier):
                     "std::io::Read::read_to_string", "std::io::Read::read_to_end", "std::fs::read_to_string", "std::fs::read", "std::io::read_to_string"):
                 reads_whole += 1
     ck.ob("R6.sources", "stage inputs are decoded as a whole", True, "", "%d source-side bodies examined, %d whole-input read(s), no chunk-wise decoding" % (n_src, reads_whole), nontrivial=False)
-    ck.floor("R6.sources", "source-side bodies examined", n_src, 5)
+    ck.floor("R6.sources", "source-side bodies examined", n_src, 2)
     from .. import canary
     canary.require(ck, {"R6.sources"})
     # ---------------------------------------------------------------- depth
